@@ -526,6 +526,11 @@ func (group *Group) feedRtpPacket(pkt rtprtcp.RtpPacket) {
 		}
 
 		if boundary {
+			// 还没有进入play阶段的session，WriteRtpPacket不会发送数据，此时不能结束等待，
+			// 否则play之后收到的第一个视频包不是GOP起始位置
+			if s.Stage.Load() != rtsp.SubSessionStageReadPlay {
+				continue
+			}
 			s.WriteRtpPacket(pkt)
 			s.ShouldWaitVideoKeyFrame = false
 		}
